@@ -35,7 +35,7 @@ def check(run):
     run.check_coq()
     if not run.need_ml():
         return
-    exe = run.need_cc("sysos_drv", "sysos_drv.c", sources=core.lib_sources(("addrxlat",)), sanitize=True,
+    exe = run.need_cc("sysos_drv", "sysos_drv.c", sources=core.lib_sources(("addrxlat",), exclude=("ia32.c", "arm.c")), sanitize=True,
                       libs=False)
     if exe is None:
         return
@@ -94,7 +94,7 @@ def run_lines(run, exe, lines, probes):
 
 
 def compare(run, exe, cases, probes, tags, model, impl, spec, crashes):
-    bad = set(core.diff_lines(model, impl))
+    bad = set(i for i in core.diff_lines(model, impl) if not (i < len(model) and model[i] == "nomodel"))
     verdicts = {}
     for i, line in enumerate(cases):
         il = impl[i] if i < len(impl) else "NOT-RUN"
@@ -107,9 +107,18 @@ def compare(run, exe, cases, probes, tags, model, impl, spec, crashes):
         if i < 3:
             run.sample({"case": line[:300], "impl": il[:300], "spec": sl})
     first = sorted(set(verdicts) | set(crashes))
-    todo = (first + sorted(bad - set(first)))[:5]
+    todo = (first + sorted(bad - set(first)))[:400]
     for i in todo:
+        if len(run.violations) >= 5:
+            break
         line, pr = cases[i], probes[i]
+        if i in verdicts and i not in crashes:
+            sig0 = "sysos spec %s %s" % (tags[i], verdicts[i])
+            if any(k.get("status", "open") == "open" and core.re.search(k["match"], sig0) for k in run.known):
+                run.violation("spec", verdicts[i], {"engine": "sysos", "case": line, "probes": pr},
+                              found_input=True, signature=sig0)      # listed finding: printed once, no alarm
+                run.count("known-finding-cases")
+                continue
 
         def one(l):
             m, im, sp, cr = run_lines(run, exe, [l], [pr])
@@ -117,7 +126,7 @@ def compare(run, exe, cases, probes, tags, model, impl, spec, crashes):
 
         def fails(l):
             m, im, sp, cr = one(l)
-            return bool(cr) or m != im or judge(im, sp) is not None
+            return bool(cr) or (m != im and m != "nomodel") or judge(im, sp) is not None
 
         def contradicts(l):
             m, im, sp, cr = one(l)
@@ -140,7 +149,8 @@ def compare(run, exe, cases, probes, tags, model, impl, spec, crashes):
                           signature="sysos crash %s %s" % (kind, (where.group(1) + " " + where.group(2)) if where else err[-200:]))
         elif j:
             run.violation("spec", "libaddrxlat contradicts the specification (%s): %s; case: %s"
-                          % (kind, j, small[:400]), replay, found_input=True, signature="sysos spec %s %s" % (kind, j))
+                          % (kind, j, small[:400]), replay, found_input=True,
+                          signature="sysos spec %s %s" % (tags[i], j))
         else:
             run.violation("tie", "correspondence sysos/%s (model vs libaddrxlat) broken on case: %s"
                           % (kind, small[:400]), replay, found_input=False, signature="sysos tie " + kind)
